@@ -120,7 +120,7 @@ def cases(ctx):
                 for sc in ("0", "n", "n+1", "2^k", "ok"):
                     if (rc, sc) != ("ok", "ok"):
                         yield ("range", ci, enc, rc, sc)
-            for i in range(8):
+            for i in range(8 if enc != "der" else 16):
                 yield ("malformed", ci, enc, i)
 
 
@@ -380,7 +380,26 @@ def run_case(ctx, case):
         elif enc == "string":
             bad = [good[:-1], good[1:], good + b"\x00", b"\x00" + good, b"", good[:len(good) // 2], good + good, good[:1]][i]
         else:
-            bad = [good[:-1], good + b"\x00", b"", good[:2], b"\x30\x00", good[:4] + good[5:], b"\x31" + good[1:], good[:1] + bytes([good[1] + 1]) + good[2:]][i]
+            gr, gs = D.parse_sig(good)
+            ir, is_ = D.integer(gr), D.integer(gs)
+
+            def nonminimal(x):
+                t, c, _ = D.read_tlv(x)
+                return D.tlv(2, b"\x00" + c)
+
+            def negative(x):
+                t, c, _ = D.read_tlv(x)
+                c = c[1:] if c[0] == 0 and len(c) > 1 else bytes([c[0] | 0x80]) + c[1:]
+                return D.tlv(2, c)
+            bad = [good[:-1], good + b"\x00", b"", good[:2], b"\x30\x00", good[:4] + good[5:], b"\x31" + good[1:], good[:1] + bytes([good[1] + 1]) + good[2:],
+                   # junk INSIDE the sequence after s, with the sequence length covering it
+                   D.tlv(0x30, ir + is_ + b"\x00"), D.tlv(0x30, ir + is_ + b"\x05\x00"), D.tlv(0x30, ir + is_ + D.integer(1)),
+                   # junk between / before the integers
+                   D.tlv(0x30, b"\x05\x00" + ir + is_), D.tlv(0x30, ir + b"\x05\x00" + is_),
+                   # non-minimal and negative integers
+                   D.tlv(0x30, nonminimal(ir) + is_), D.tlv(0x30, ir + nonminimal(is_)), D.tlv(0x30, negative(ir) + is_)][i]
+            if bad == good:
+                return Outcome("variant-equals-original", False)
         res = verify_outcome(vk, bad, MSG, hf, decf)
         if res == "bad":
             o.cls = "rejected"
